@@ -17,9 +17,9 @@ ALL = ["C01", "C02", "C03", "C04", "C05", "C06", "C07", "C08", "C09", "C10", "C1
 
 def _job(args):
     kind, name, edits, pid = args
-    from selfval.mut import build_overrides, run_rules, violations
+    from selfval.mut import build_overrides, run_rules, violations, overrides_from_patch
     try:
-        ov = build_overrides(edits)
+        ov = overrides_from_patch(edits) if isinstance(edits, str) else build_overrides(edits)
     except SyntaxError as e:
         return (kind, name, pid, "invalid", f"mutant does not compile: {e}")
     if ov is None:
@@ -46,6 +46,18 @@ def plan(pids):
     for name, edits in BENIGN.items():
         for pid in pids:
             jobs.append(("benign", name, edits, pid))
+    # seeded changes from independent sub-agents (stored diffs) as regression mutants
+    import glob
+    import json
+    for meta_p in sorted(glob.glob(os.path.join(HERE, "seeded", "*", "meta.json"))):
+        try:
+            meta = json.load(open(meta_p))
+        except Exception:
+            continue
+        patch = os.path.join(os.path.dirname(meta_p), "patch.diff")
+        for pid in meta.get("caught_by", []):
+            if pid in pids:
+                jobs.append(("mutant", "seeded/" + meta["id"], patch, pid))
     return jobs
 
 
